@@ -38,6 +38,9 @@ OsrRefuse == [rule |-> "osr", when |-> << Eq(Slice(Req, 5, 6), B(<<16>>)) >>,
 
 CipherReq(i) == [pt |-> 0, netfn |-> 6, cmd |-> 84, data |-> <<14, 0, 128 + i>>]
 
+FailOnceC16(i) == [rule |-> "fail-once", when |-> << IsCipherReq, Eq(Slice(Req, 24, 25), B(<<128 + i>>)) >>, ifstate |-> [name |-> "n", eq |-> 0],
+                   effects |-> << [k |-> "inc", name |-> "n"] >>,
+                   datagrams |-> << Dg(NullWrapper(0, MsgRsp(7, 84, 193, <<>>)), [kind |-> "chunk-refused"]) >>]
 \* ------------------------------------------------------------------ C16 (a)
 Discovery(id, recs, tail, tailname) ==
   LET data == CS!DataOf(recs) \o tail
@@ -80,7 +83,17 @@ DiscoverySet ==
                                     [k |-> "call", api |-> "RetrieveSupportedCipherSuites", label |-> "discover",
                                      exp |-> [prop |-> "C16", outcome |-> "error", value |-> <<>>, reqs |-> [j \in 1..(i + 1) |-> CipherReq(j - 1)]]] >>]
                    : n \in {4, 7, 12}, i \in {0, 1, 2}, cc \in {193, 212, 255}, body \in BOOLEAN }
+      \* the same discovery again after one that failed part-way (a chunk request refused once): the full, correct list
+      again == { LET recs == ListOf(n * 50 + 7 + Seed, n)
+                     data == CS!DataOf(recs)
+                     one == Discovery("ag-" \o ToString(n) \o "-" \o ToString(i), recs, <<>>, "none")
+                 IN [one EXCEPT !.steps = << [k |-> "rules", rules |-> << FailOnceC16(i) >> \o one.steps[1].rules, state |-> [n |-> 0]],
+                                             [one.steps[2] EXCEPT !.label = "discover-fails", !.exp = [prop |-> "C16", outcome |-> "error", value |-> <<>>, reqs |-> [j \in 1..(i + 1) |-> CipherReq(j - 1)]]],
+                                             one.steps[2] >>,
+                                 !.info = [one.info EXCEPT !.family = "discovery-again", !.chunks = i]]
+                 : n \in {4, 5, 6, 7, 9, 12, 17}, i \in {1, 2} }
   IN good \cup exact \cup bad \cup twice \cup full \cup {sc \in refused : sc.info.bytes >= 16 * sc.info.chunks}
+     \cup {sc \in again : sc.info.bytes >= 16 * sc.info.chunks}
 \* a BMC that answers every request with a full chunk of well-formed records: the enumeration must still end (C05)
 EndlessRule == [rule |-> "endless", when |-> << IsCipherReq >>,
                 datagrams |-> << Dg(NullWrapper(0, MsgRsp(7, 84, 0, <<14>> \o CS!DataOf(Pair16))), [kind |-> "chunk", i |-> 0]) >>]
